@@ -170,3 +170,81 @@ Proof.
   - apply (good_of_ok cname site env hidden). exact O2.
   - destruct O1 as [[_ [_ W]] _]. exact W.
 Qed.
+
+(* ================================================================================================
+   ... lifted to stored rows: CallTraceRow.from_trace is a function of the trace's structure
+   ================================================================================================ *)
+Definition opt_fields_perm (a b : option ty) : Prop :=
+  match a, b with
+  | None, None => True
+  | Some x, Some y => fields_perm x y
+  | _, _ => False
+  end.
+
+(* same function; the argument dict lists the same names in any insertion order, with field-permuted types;
+   return / yield field-permuted *)
+Definition trace_perm (t1 t2 : trace) : Prop :=
+  tr_func t1 = tr_func t2
+  /\ (exists a2, frelP fields_perm (tr_args t1) a2 /\ Permutation a2 (tr_args t2))
+  /\ opt_fields_perm (tr_ret t1) (tr_ret t2) /\ opt_fields_perm (tr_yield t1) (tr_yield t2).
+
+Section RowStructural.
+Variable cname : cls -> string * string.
+Variable fname : fid -> string * string.
+Variable site : string.
+Variable env : string -> string -> lookup.
+Variable hidden : string -> option cls.
+
+Notation goodt := (good cname env hidden).
+
+Lemma maybe_encode_good o :
+  good_opt cname env hidden o ->
+  maybe_encode_type cname site o = Ok (option_map (fun t => enc0 cname site (canon t)) o).
+Proof.
+  destruct o as [t|]; intros G; [|reflexivity]. cbn [maybe_encode_type option_map].
+  rewrite (type_to_json_good cname site env hidden t G). reflexivity.
+Qed.
+
+Lemma from_trace_good tr :
+  good_trace cname fname env hidden tr ->
+  from_trace cname fname site tr =
+  Ok (Row (fst (fname (tr_func tr))) (snd (fname (tr_func tr)))
+          (JObj (map (fun f => (fst f, enc0 cname site (snd f))) (canon_args (tr_args tr))))
+          (option_map (fun t => enc0 cname site (canon t)) (tr_ret tr))
+          (option_map (fun t => enc0 cname site (canon t)) (tr_yield tr))).
+Proof.
+  intros [_ [_ [GA [GR GY]]]]. unfold from_trace.
+  rewrite (arg_types_to_json_good cname site env hidden _ GA), (maybe_encode_good _ GR), (maybe_encode_good _ GY).
+  reflexivity.
+Qed.
+
+Lemma opt_perm_canon (a b : option ty) :
+  match a with Some t => wf_tyb t = true | None => True end -> opt_fields_perm a b ->
+  option_map (fun t => enc0 cname site (canon t)) a = option_map (fun t => enc0 cname site (canon t)) b.
+Proof.
+  destruct a as [x|], b as [y|]; cbn [opt_fields_perm option_map]; intros W P; try contradiction; [|reflexivity].
+  rewrite (fields_perm_canon x y W P). reflexivity.
+Qed.
+
+Theorem from_trace_structural tr1 tr2 :
+  ok_trace cname fname env hidden tr1 -> ok_trace cname fname env hidden tr2 -> trace_perm tr1 tr2 ->
+  from_trace cname fname site tr1 = from_trace cname fname site tr2.
+Proof.
+  intros O1 O2 [PF [[a2 [PA1 PA2]] [PR PY]]].
+  rewrite (from_trace_good tr1 (good_trace_of_ok cname fname site env hidden tr1 O1)).
+  rewrite (from_trace_good tr2 (good_trace_of_ok cname fname site env hidden tr2 O2)).
+  destruct O1 as [_ [ND1 [A1 [R1 Y1]]]].
+  assert (EA : canon_args (tr_args tr1) = canon_args (tr_args tr2)).
+  { unfold canon_args. apply (sorted_fields_eq (tr_args tr1) a2 (tr_args tr2) ND1); [|exact PA2].
+    apply frel_canon; [| |exact PA1].
+    - apply Forall_forall. intros f _ b W P. apply fields_perm_canon; assumption.
+    - apply forallb_forall. intros f Hf. rewrite Forall_forall in A1. destruct (A1 f Hf) as [[_ [_ W]] _]. exact W. }
+  assert (ER : option_map (fun t => enc0 cname site (canon t)) (tr_ret tr1)
+               = option_map (fun t => enc0 cname site (canon t)) (tr_ret tr2)).
+  { apply opt_perm_canon; [|exact PR]. destruct (tr_ret tr1); [|exact I]. destruct R1 as [[_ [_ W]] _]. exact W. }
+  assert (EY : option_map (fun t => enc0 cname site (canon t)) (tr_yield tr1)
+               = option_map (fun t => enc0 cname site (canon t)) (tr_yield tr2)).
+  { apply opt_perm_canon; [|exact PY]. destruct (tr_yield tr1); [|exact I]. destruct Y1 as [[_ [_ W]] _]. exact W. }
+  rewrite PF, EA, ER, EY. reflexivity.
+Qed.
+End RowStructural.
